@@ -363,6 +363,7 @@ class StmtMixin:
             go = st.decide(idx < n, "loop-continues")
         else:
             go = st.decide(self.truthy(self.ev(node.test, fr)), "while:" + ast.unparse(node.test)[:40])
+        self.reach.setdefault(f"{base}/body-end", 0)
         if go:
             variant0 = None
             if spec.decreases:
@@ -387,6 +388,7 @@ class StmtMixin:
                 if variant0 is not None:
                     v1 = IV(self.spec_eval(spec.decreases, fr).term)
                     st.check(f"{base}/variant-decreases", v1 < variant0, "decreases")
+                self.reach[f"{base}/body-end"] = self.reach.get(f"{base}/body-end", 0) + (1 if st.reachable() else 0)
                 raise PathEnd()
             except BreakEx:
                 fr.pre_stack.pop()
